@@ -7,6 +7,9 @@ P = {'id': 'C06',
               'gold_refines_map',
               'easy_refines_map',
               'idx_refines_map',
+              'get_fast_is_get',
+              'smallmap_u8_refines_map',
+              'get_fast_unmasked_refuted',
               'remove_loop_is_get_loop',
               'sentinel_unmapped_refuted',
               'tombstone_first_slot_refuted',
